@@ -80,6 +80,18 @@ def _plain(v):
     return repr(v)
 
 
+def _realized(pre_args):
+    r1 = deep_realize(pre_args)
+    r2 = deep_realize(_TRACKED)
+    with NoTracing():
+        real = {}
+        for k in r1.arguments:
+            real[k] = r1.arguments[k]
+        for k in r2:
+            real[k] = r2[k]
+        return _plain(real)
+
+
 def explore(fn, budget_s=60.0, per_path_timeout=20.0, max_paths=10**9,
             samples=3, on_reset=None):
     """Explore ``fn`` (annotated parameters become symbolic).
@@ -116,17 +128,14 @@ def explore(fn, budget_s=60.0, per_path_timeout=20.0, max_paths=10**9,
             if len(st['samples']) < samples:
                 space.detach_path()
                 try:
-                    real = dict(deep_realize(pre_args).arguments)
-                    real.update(deep_realize(dict(_TRACKED)))
-                    st['samples'].append(_plain(real))
+                    st['samples'].append(_realized(pre_args))
                 except Exception:  # pragma: no cover
                     pass
             return st['paths'] >= max_paths
         space.detach_path()
-        real = dict(deep_realize(pre_args).arguments)
-        real.update(deep_realize(dict(_TRACKED)))
+        cexval = _realized(pre_args)
         with NoTracing():
-            st['cex'] = _plain(real)
+            st['cex'] = cexval
             try:
                 msg = str(deep_realize(exc.args[0])) if exc.args else ''
             except Exception:
